@@ -594,6 +594,10 @@ type marker struct {
 	refX, refY                Value
 
 	isUnitsUserSpace bool
+
+	// set while the content of the marker is drawn: a marker (indirectly)
+	// referencing itself is ignored instead of being followed forever
+	drawing bool
 }
 
 func newMarker(node *cascadedNode, children []*svgNode) (out *marker, err error) {
